@@ -60,7 +60,7 @@ def make_case(seed, index, tier):
     return {'seed': seed, 'index': index, 'tier': tier, 'scenario': contenders,
             'reused': rng.random() < 0.5,
             # a clock that absorbs every delay of the scenario (one date, many batches)
-            'start': rng.choice([1.7e18, 2.0 ** 70]) if rng.random() < 0.05 else 0}
+            'start': rng.choice([1.7e18, 2.0 ** 70, -1.5, -1, -0.5]) if rng.random() < 0.09 else 0}
 
 
 class Leave(Exception):
